@@ -39,9 +39,10 @@ Theorem C15_simulator_predict_refines_library_predict :
   forall (R A G : Type) (N : Num R) (aeqb : A -> A -> bool) (RG : RngOps R G),
   (forall x y : A, aeqb x y = true <-> x = y) ->
   rng_lengths_ok RG ->
-  forall (s : (@nbr R A G)) (g : G) (cx : (@mat R)) (orcs : list (list nat)) (sizes : list nat),
+  forall (s : (@nbr R A G)) (quick : bool) (raw : list R) (g : G) (cx : (@mat R)) (orcs : list (list nat))
+    (sizes : list nat),
   lp_sim_ok N (n_lp s) ->
-  let (r, g1) := simnbr_predict N aeqb RG s g cx (sim_distances N s cx) orcs sizes in
+  let (r, g1) := simnbr_predict N aeqb RG s quick raw g cx (sim_distances N s cx) orcs sizes in
   nbr_predict N aeqb RG s g cx orcs sizes true = (option_map preds_of r, g1).
 Proof. exact @sim_predict_refines_library. Qed.
 Print Assumptions C15_simulator_predict_refines_library_predict.
@@ -58,8 +59,9 @@ Print Assumptions C15_shared_distance_cache_is_sound.
 
 Theorem C15_trained_bandits_share_the_history :
   forall (R A G : Type) (N : Num R) (aeqb : A -> A -> bool) (RG : RngOps R G) 
-    (ms : list (@mab R A G)) (train : (@batch R A)) (cx : (@ctxs R)) (orcs : list (@oracle R A)),
-  b_cx train = Some cx -> Forall (shares_history cx) (map fst (sim_train_all N aeqb RG ms train orcs)).
+    (quick : bool) (ms : list (@mab R A G)) (train : (@batch R A)) (cx : (@ctxs R)) (orcs : list (@oracle R A)),
+  b_cx train = Some cx ->
+  Forall (shares_history cx) (map fst (sim_train_all N aeqb RG quick ms train orcs)).
 Proof. exact @trained_bandits_share_the_history. Qed.
 Print Assumptions C15_trained_bandits_share_the_history.
 
@@ -84,30 +86,32 @@ Print Assumptions C15_online_bandits_do_not_influence_each_other.
 
 Theorem C15_training_a_replaced_bandit_gives_the_library_state :
   forall (R A G : Type) (N : Num R) (aeqb : A -> A -> bool) (RG : RngOps R G) 
-    (m : (@mab R A G)) (s : (@nbr R A G)) (ds : list A) (rs : list R) (cx : option (@ctxs R)) (orc : (@oracle R A)),
+    (quick : bool) (m : (@mab R A G)) (s : (@nbr R A G)) (ds : list A) (rs : list R) (cx : option (@ctxs R)) 
+    (orc : (@oracle R A)),
   m_imp m = INbr s ->
   fresh_nbr s ->
   fit_args_ok N m ds rs cx = true ->
-  let (b, ok) := sim_train N aeqb RG m ds rs cx orc in
+  let (b, ok) := sim_train N aeqb RG quick m ds rs cx orc in
   let (m1, o) := step N aeqb RG m (Fit ds rs cx orc) in
   ok = true /\
   o = ODone /\
   (exists (s1 : (@nbr R A G)) (g1 : G),
-     b = SNbr s1 g1 [] /\ m1 = lib_of s1 g1 /\ n_lp s1 = fst (lp_binarize (n_lp s) ds rs)).
+     b = SNbr s1 g1 {| k_rows := []; k_raw := rs; k_quick := quick |} /\
+     m1 = lib_of s1 g1 /\ n_lp s1 = fst (lp_binarize (n_lp s) ds rs)).
 Proof. exact @sim_train_refines_api. Qed.
 Print Assumptions C15_training_a_replaced_bandit_gives_the_library_state.
 
 Theorem C15_updating_a_replaced_bandit_gives_the_library_state :
   forall (R A G : Type) (N : Num R) (aeqb : A -> A -> bool) (RG : RngOps R G) 
-    (s : (@nbr R A G)) (g : G) (rae : list (list (A * option R))) (ds : list A) (rs : list R) 
-    (cx : (@ctxs R)) (orc : (@oracle R A)),
+    (s : (@nbr R A G)) (g : G) (rae : nbk) (ds : list A) (rs : list R) (cx : (@ctxs R)) (orc : (@oracle R A)),
   fit_args_ok N (lib_of s g) ds rs (Some cx) = true ->
   width_ok (n_cx s) cx = true ->
   let (b, ok) := sim_update N aeqb RG (SNbr s g rae) ds rs (Some cx) orc in
   let (m1, o) := step N aeqb RG (lib_of s g) (PartialFit ds rs (Some cx) orc) in
   ok = true /\
   o = ODone /\
-  b = SNbr (nbr_partial_fit N s ds rs cx) g rae /\ m1 = lib_of (nbr_partial_fit N s ds rs cx) g.
+  (exists rae' : nbk, b = SNbr (nbr_partial_fit N s ds rs cx) g rae') /\
+  m1 = lib_of (nbr_partial_fit N s ds rs cx) g.
 Proof. exact @sim_update_refines_api. Qed.
 Print Assumptions C15_updating_a_replaced_bandit_gives_the_library_state.
 
@@ -115,14 +119,15 @@ Theorem C15_offline_neighbourhood_predictions_equal_public_api :
   forall (R A G : Type) (N : Num R) (aeqb : A -> A -> bool) (RG : RngOps R G),
   (forall x y : A, aeqb x y = true <-> x = y) ->
   rng_lengths_ok RG ->
-  forall (m : (@mab R A G)) (s : (@nbr R A G)) (train test : (@batch R A)) (tcx qcx : list (list R)) (orcT op oe : (@oracle R A)),
+  forall (quick : bool) (m : (@mab R A G)) (s : (@nbr R A G)) (train test : (@batch R A)) (tcx qcx : list (list R))
+    (orcT op oe : (@oracle R A)),
   m_imp m = INbr s ->
   fresh_nbr s ->
   lp_sim_ok N (n_lp s) ->
   b_cx train = Some tcx ->
   b_cx test = Some qcx ->
   fit_args_ok N m (b_ds train) (b_rs train) (b_cx train) = true ->
-  let (b, _) := sim_train N aeqb RG m (b_ds train) (b_rs train) (b_cx train) orcT in
+  let (b, _) := sim_train N aeqb RG quick m (b_ds train) (b_rs train) (b_cx train) orcT in
   let
   '(_, r) := sim_query1 N aeqb RG b (b_cx test) (length (b_ds test)) 0 (length (b_ds test)) op oe in
    let (m1, _) := step N aeqb RG m (Fit (b_ds train) (b_rs train) (b_cx train) orcT) in
@@ -148,8 +153,8 @@ Theorem C15_online_neighbourhood_bandit_equals_predict_update_protocol_partial :
   forall (R A G : Type) (N : Num R) (aeqb : A -> A -> bool) (RG : RngOps R G),
   (forall x y : A, aeqb x y = true <-> x = y) ->
   rng_lengths_ok RG ->
-  forall (batches : list (@batch R A)) (s : (@nbr R A G)) (g : G) (rae : list (list (A * option R)))
-    (p0 : list (option A)) (e0 : list (list (A * option R))) (lo : nat) (orcs : list (@borc R A)),
+  forall (batches : list (@batch R A)) (s : (@nbr R A G)) (g : G) (rae : nbk) (p0 : list (option A))
+    (e0 : list (list (A * option R))) (lo : nat) (orcs : list (@borc R A)),
   lp_sim_ok N (n_lp s) ->
   let (_, rep) := sim_online1 N aeqb RG (SNbr s g rae) (Some (p0, e0)) lo batches orcs in
   let (_, r) := api_online_predict_only N aeqb RG (lib_of s g) batches orcs in
@@ -163,8 +168,10 @@ Print Assumptions C15_online_neighbourhood_bandit_equals_predict_update_protocol
 Theorem C15_online_neighbourhood_public_protocol_refuted :
   rep_preds
     (snd
-       (sim_online1 QcNum Z.eqb ToyRng (SNbr d13_trained 0%nat []) (Some ([], [])) 0
-          [d13_batch; d13_batch2] [d13_borc; d13_borc])) = Some [Some 10%Z; Some 20%Z] /\
+       (sim_online1 QcNum Z.eqb ToyRng
+          (SNbr d13_trained 0%nat {| k_rows := []; k_raw := [1]; k_quick := true |}) 
+          (Some ([], [])) 0 [d13_batch; d13_batch2] [d13_borc; d13_borc])) = 
+  Some [Some 10%Z; Some 20%Z] /\
   option_map fst
     (snd
        (api_online QcNum Z.eqb ToyRng (lib_of d13_trained 0%nat) [d13_batch; d13_batch2]
